@@ -1,20 +1,31 @@
 LIBS = ["libvpsc", "libcola", "libavoid", "libtopology", "libdialect"]
 HARNESS = "harness/c14.cpp"
 DRIVER_MODE = "c14"
-LEAN_MODULES = ["AdaptaVerif.Props.C14"]
+LEAN_MODULES = ["AdaptaVerif.Props.C14", "AdaptaVerif.Props.C14Limits"]
 LEVEL = "translation_validation"
 LEVEL_TEXT = ("Every output of the real doHOLA() on generated connected simple graphs is decided, on the exact doubles it "
               "returned, by an executable Lean checker (cleanDrawing) for which Lean 4 theorems prove, for all drawings, routes, "
               "constraint lists and parameters, that it answers true exactly when the mathematical clauses hold: same node ids and "
               "edge multiset, sizes bit-identical, open node boxes pairwise disjoint, every route leg exactly axis-parallel, route "
               "ends within the padded end-node boxes, no point of any route leg strictly inside another node (shrunk 1e-6), and "
-              "every returned SepPair (sign bit = direction, BDRY = + half extents + extra boundary gap, EQ/INEQ) satisfied to 1e-4.")
+              "every returned SepPair (sign bit = direction, BDRY = + half extents + extra boundary gap, EQ/INEQ) satisfied to 1e-4. "
+              "One decision rule of the pipeline IS modelled and proved: the limits libavoid gives the first/last segment of a "
+              "connector when nudgeOrthogonalSegmentsConnectedToShapes is on (Model/FinalSegLimits.lean, 10 theorems in "
+              "Props/C14Limits.lean: the interval lies inside every shape containing either end, so any solver answer keeps the "
+              "end point inside its end node; flags; independence of the declaration direction; free buffer; monotone in the "
+              "obstacle set). It is tied on every run: the limits of every shiftable final segment that the real library forms "
+              "during doHOLA (nudging hook) must lie inside the model's interval on the returned node boxes.")
 LEVEL_NOTE = ("The ~18 kLoC HOLA pipeline (peeling, stress descent, ACA/chains, planarisation, tree placement, libavoid routing) "
               "is NOT modelled and nothing is proved about it; only each sampled output is validated. The theorems are about the "
               "checkers. The SepPair reading is a hand transcription of SepPair::generateSeparationConstraint (not regenerated). "
               "The segment/rectangle test and its proof are shared with Check/RouteRect.lean. Leaks reported by LSan inside four "
-              "libdialect functions are suppressed by allocation site in the harness (they belong to C15).")
-TECHNIQUE = "translation validation: proven Lean 4 checkers (iff theorems) on the outputs of the real doHOLA under ASan/UBSan"
+              "libdialect functions are suppressed by allocation site in the harness (they belong to C15). The final-segment "
+              "limit model is a hand transcription (not regenerated) and the tie is one-sided: the library narrows the interval "
+              "further by its channel scan, so only a WIDER library interval is a divergence; segments with an end within 1e-6 of "
+              "a shape boundary are not compared (counted as fseg.ambiguous); the routing-time padding 0.75*nodePaddingScalar*IEL "
+              "repeats the constant preRoutingGapIELScalar = 0.125 of hola.cpp.")
+TECHNIQUE = ("translation validation: proven Lean 4 checkers (iff theorems) on the outputs of the real doHOLA under ASan/UBSan; "
+             "proved model of the final-segment limit rule tied to the library's nudging regions by the correspondence harness")
 DESIGN_REF = "DESIGN.md section 6 C14"
 RULE = ("cases = 7 fixed witnesses of finding candidates (tags finding-*) + generated connected simple graphs, 10 classes "
         "round-robin (tree, tree-sym, cycle(+chords), core-trees x2, hub x2, links = subdivided multigraph skeletons, tree-aniso, "
@@ -36,7 +47,8 @@ TRUSTED_BASE = ["Lean 4.33 kernel", "axioms: propext, Classical.choice, Quot.sou
                 "compiled driver agrees with the kernel semantics of the checker definitions",
                 "harness/c14.cpp (generator, dump of Node::getCentre/getDimensions, Edge::getEndIds/getRoute, SepPair fields "
                 "read through a member-pointer to the private SepMatrix::m_sparseLookup) + hex-float import",
-                "hand transcription of SepPair::generateSeparationConstraint in Check/Drawing.lean (dimHolds)"]
+                "hand transcription of SepPair::generateSeparationConstraint in Check/Drawing.lean (dimHolds)",
+                "guarded nudging hook of /repo (VerifNudgeSegment: ends, minSpaceLimit, maxSpaceLimit of every region segment)"]
 ASSUMPTIONS = ["input graphs are connected and simple (checked by the harness itself on every case: line `pre 1 1`)",
                "documented node padding = nodePaddingScalar * IEL added to width and height (half per side), IEL = twice the "
                "average node dimension of the input (libdialect/opts.h, Graph::getIEL)",
@@ -44,7 +56,10 @@ ASSUMPTIONS = ["input graphs are connected and simple (checked by the harness it
 EXPLANATION = ("SPECFAIL messages start with the '+'-joined labels of the failing clauses; labels with '~' name a recognised "
                "sub-class (sizesKept~ulp, routeOrthogonal~hairline, sep~treeCentreAlign, sep~staleAlignBentEdge, "
                "sep~staleAlignStraightEdge, sep~bdryExtraGap, sep~treeRankSep, noNodeOverlap~treeRanks, "
-               "routeOrthogonal~treeRankOverlap) so that known findings can be matched on the exact label set.")
+               "routeOrthogonal~treeRankOverlap) so that known findings can be matched on the exact label set. "
+               "DIVERGE 'finalSegLimits | …' = the library allowed a first/last connector segment a wider shift interval than "
+               "the proven rule (message: connector, segment, both intervals, and the clauses failing in the same case); when "
+               "the route-end clause fails in the same case the verdict is SPECFAIL with the extra label tie~finalSegLimits.")
 
 def plan(tier, seed, searching):
     return [dict(hargs=["--seed", str(seed), "--tier", tier, "--scale", "8" if searching else "1"], timeout=3000)]
